@@ -4,8 +4,8 @@ import "bytes"
 
 // ---- C03: literal text is copied verbatim; only trim markers and comments remove bytes ----
 
-var c03LeftC = []string{"{*", "[*", "<#", "{*", "<#", "{*", "<!--"}
-var c03RightC = []string{"*}", "*]", "#>", "*}", "#>", "*}", "-->"}
+var c03LeftC = []string{"{*", "[*", "<#", "{*", "<#", "{*", "<!--", "\u00a1"}
+var c03RightC = []string{"*}", "*]", "#>", "*}", "#>", "*}", "-->", "!"}
 
 func c03IsWS(b byte) bool { return b == ' ' || b == '\t' || b == '\r' || b == '\n' }
 
@@ -46,16 +46,17 @@ func c03Render(set *Set, src string) (string, error) {
 
 // H_C03_text: T1 A T2 with T1, T2 arbitrary text (N bytes each, any byte except a left
 // delimiter's first byte) and A one of: plain action, action with left / right / both trim
-// markers, comment - in the default and four custom delimiter configurations. The output
+// markers, comment - in the default and seven custom delimiter configurations (one with
+// non-ASCII delimiters). The output
 // is T1 (minus its trailing run of space/tab/CR/LF iff left trim) ++ the action's output
 // ++ T2 (minus its leading run iff right trim); nothing else is added or removed, and text
 // is not escaped.
 //
 //gosym:reach plain,ltrim,rtrim,both,comment
 func H_C03_text() {
-	cfgs := []int{0, 1, 5, 6} // quick: default, "[[ ]]"+"[* *]", "<%= %>", "${ }"+"<!-- -->"
+	cfgs := []int{0, 1, 5, 6, 7} // quick: default, "[[ ]]"+"[* *]", "<%= %>", "${ }"+"<!-- -->", non-ASCII guillemets + inverted exclamation mark
 	if vfTier() == 1 {
-		cfgs = []int{0, 1, 2, 3, 4, 5, 6}
+		cfgs = []int{0, 1, 2, 3, 4, 5, 6, 7}
 	}
 	cfg := cfgs[ndChoice("cfg", len(cfgs))]
 	form := ndChoice("form", 5)
